@@ -22,7 +22,7 @@ def gen_dimadaptive_cfg(r, tier):
     a = [r.choice(A_CHOICES) for _ in range(dim)]
     return {"strategy": "dim_adaptive", "dim": dim, "a": a, "b": [a[d] + r.choice(W_CHOICES) for d in range(dim)],
             "boundary": r.random() < 0.7, "max_points": r.choice([10, 30, 60, 120, 250] if dim == 2 else [30, 80, 200]),
-            "nnoise": r.choice([1, 2]), "p_zero": 0.0}   # zero surpluses everywhere make the driver spin without progress (caller's contract)
+            "nnoise": r.choice([1, 2]), "p_zero": 0.0, "second_call": r.random() < 0.4}   # zero surpluses everywhere make the driver spin without progress (caller's contract)
 
 
 def _fresh_component(cfg, f, lv):
@@ -90,7 +90,14 @@ def run_dimadaptive(cfg, rk, ctx):
         asked.append(lv)
         return 1e-6 + H(rk, "surplus", lv)
     da.calculate_surplus = surplus
-    scheme, err, res, errors, num_points = da.perform_combi(1, 2, 1e-12, max_number_of_points=cfg["max_points"])
+    limits = [cfg["max_points"]] + ([cfg["max_points"] * 2] if cfg.get("second_call") else [])
+    for call, mp in enumerate(limits):
+        # a second perform_combi on the same object (history of calls: index sets and caches of the first call must not leak)
+        scheme, err, res, errors, num_points = da.perform_combi(1, 2, 1e-12, max_number_of_points=mp)
+        _judge_dimadaptive(cfg, rk, ctx, f, scheme, res, errors, call)
+
+
+def _judge_dimadaptive(cfg, rk, ctx, f, scheme, res, errors, call):
     ctx.step(len(errors) + 1)
     ctx.state(("dim_adaptive", sorted((tuple(int(x) for x in cg.levelvector), cg.coefficient) for cg in scheme)))
     ctx.ev("dim_adaptive", len(errors), [float(x).hex() for x in np.atleast_1d(res)])
@@ -98,7 +105,7 @@ def run_dimadaptive(cfg, rk, ctx):
     for cg in scheme:
         v, s = _fresh_component(cfg, f, cg.levelvector)
         want += cg.coefficient * v; S += abs(cg.coefficient) * s
-    _compare(ctx, "reported_equals_combination", {"strategy": "dim_adaptive"}, res, want, S, len(scheme),
-             "after %d refinement steps, scheme of %d grids" % (len(errors), len(scheme)))
+    _compare(ctx, "reported_equals_combination", {"strategy": "dim_adaptive", "call": call}, res, want, S, len(scheme),
+             "perform_combi call %d: after %d refinement steps, scheme of %d grids" % (call, len(errors), len(scheme)))
     if len(errors) > 0:
         ctx.probe("dim_adaptive_refined")
